@@ -40,6 +40,8 @@
 (*   CallAfterClose        any driver call / vtable call for a closed device *)
 (*   WriteAfterClose       a byte of the released device block changed       *)
 (*   DoubleClose           second driver close for the same device           *)
+(*   CallOnUnknownDevice   a driver call with a pointer that is none of the  *)
+(*                         devices the driver opened (NULL, garbage)         *)
 (*   OpenNotClosed         the HAL's open returned no device although the    *)
 (*                         driver had opened one and was not asked to close  *)
 (*   CloseNotForwarded     the HAL's close returned, the driver saw no close *)
@@ -108,6 +110,8 @@ DrvRules(e) ==
   If(~p.cur.on, "DrvOutsideCall")
   \o (IF e.f = "open" THEN If(e.r = OK /\ e.h # Len(p.hd) + 1, "UnknownHandle")
       ELSE IF e.f = "describe" THEN <<>>
+      \* h = 0: the driver was handed a pointer that is none of the devices it ever opened (e.g. NULL)
+      ELSE IF e.h = 0 THEN <<"CallOnUnknownDevice">>
       ELSE IF d.ph = "none" THEN <<"UnknownHandle">>
       ELSE IF e.f = "close" THEN If(d.ph = "closed", "DoubleClose")
       ELSE IF d.ph = "closed" THEN <<"CallAfterClose">>
